@@ -265,7 +265,9 @@ class SuperSpeedStreamInEndpoint(Elaboratable):
                 m.d.comb += handshakes_out.send_erdy.eq(1)
 
                 # ... and once that send is complete, move on to waiting for an IN token.
+                # We're no longer flow-controlled; so we won't need another ERDY until we next send an NRDY.
                 with m.If(handshakes_out.done):
+                    m.d.ss += erdy_required.eq(0)
                     m.next = "WAIT_TO_SEND"
 
 
